@@ -554,6 +554,67 @@ def oracle_file(prog, goals, pname, fixed, nodes, N):
     return body
 
 
+# ---- central-moment / cumulant goals under -sens_diff (the printed derivative against an independent symbolic oracle) ----
+CUM_PROBES = [
+    # (text, step alternatives [(probability in p, increment)], start)
+    ("x = 0\nwhile true:\n    x = x + 2 {p} x - 1\nend\n", [("p", 2), ("1 - p", -1)], 0),
+    ("x = 1\nwhile true:\n    x = x + 1 {p/2} x + 3 {1/2} x\nend\n", [("p/2", 1), ("1/2", 3), ("1/2 - p/2", 0)], 1),
+]
+
+
+def cumulant_probe(ctx):
+    """goals c4(x), k4(x), k3(x), c2(x) with -sens_diff p: d/dp of the exact central moments / cumulants of the random walk x_n,
+    computed here from the exact law (weights in Z[p], sympy), n = 0..3"""
+    import sympy as sp
+    p, n_sym = sp.Symbol("p"), sp.Symbol("n")
+    goals = ["c2(x)", "k3(x)", "c4(x)", "k4(x)"]
+    tasks = [{"kind": "sens_cli_text", "text": t, "goals": goals, "method": "-sens_diff", "param": "p", "timeout": 150} for t, _, _ in CUM_PROBES]
+    res = lib.run_tasks(tasks, timeout=150)
+    st = {"probes": len(tasks), "goal_values_agree": 0, "inconclusive": 0}
+    ctx.coverage["cumulant_goals_sens_diff"] = st
+    for (text, alts, x0), r in zip(CUM_PROBES, res):
+        if "error" in r or r.get("returncode") != 0:
+            st["inconclusive"] += 1
+            continue
+        out = re.sub(r"\x1b\[[0-9;]*m", "", r["stdout"])
+        law = {sp.Integer(x0): sp.Integer(1)}
+        truth = []          # per n: {goal: d/dp value}
+        for n in range(4):
+            m = [sp.expand(sum(w * x ** k for x, w in law.items())) for k in range(5)]
+            mu = m[1]
+            c = {k: sp.expand(sum(sp.binomial(k, j) * m[j] * (-mu) ** (k - j) for j in range(k + 1))) for k in (2, 3, 4)}
+            vals = {"c2(x)": c[2], "k3(x)": c[3], "c4(x)": c[4], "k4(x)": sp.expand(c[4] - 3 * c[2] ** 2)}
+            truth.append({g: sp.expand(sp.diff(v, p)) for g, v in vals.items()})
+            new = {}
+            for x, w in law.items():
+                for pr, inc in alts:
+                    new[x + inc] = sp.expand(new.get(x + inc, 0) + w * sp.sympify(pr))
+            law = new
+        for g in goals:
+            mm = re.search(r"^∂" + re.escape(g) + r" = (.*)$", out, re.M)
+            ctx.coverage["obligations"] += 1
+            ctx.count({"cum": text, "g": g}, nontrivial=True)
+            if not mm:
+                ctx.violation(f"sens-diff-cumulant:no-result:{text}:{g}", {"program_text": text, "goal": g, "stdout": out[-1500:]},
+                              f"-sens_diff p prints no derivative for the goal {g}\n{text}", no_input=True)
+                continue
+            parts = mm.group(1).split("; ")
+            bad = None
+            for n in range(4):
+                e = sp.sympify(parts[n]) if n < len(parts) - 1 else sp.sympify(parts[-1]).subs(n_sym, n)
+                if sp.expand(e - truth[n][g]) != 0:
+                    bad = (n, str(sp.expand(e)), str(truth[n][g]))
+                    break
+            if bad:
+                ctx.violation(f"sens-diff-cumulant:{text}:{g}", {"program_text": text, "goal": g, "param": "p", "n": bad[0], "printed": mm.group(1),
+                                                                 "polar_value": bad[1], "true_derivative": bad[2]},
+                              f"-sens_diff p for the goal {g}: the printed derivative is {bad[1]} at n={bad[0]}, the derivative of the exact "
+                              f"{'cumulant' if g.startswith('k') else 'central moment'} is {bad[2]}\n{text}")
+            else:
+                ctx.coverage["discharged"] += 1
+                st["goal_values_agree"] += 1
+
+
 def run(ctx):
     ok, log = lib.coq_check_props(ctx)
     if not ok:
@@ -826,6 +887,8 @@ def run(ctx):
                        "orig_matrix": cs["R"].get("orig_matrix"), "orig_vector": cs["R"].get("orig_vector")},
                       f"sensitivity recurrences for E({cs['goal']}) w.r.t. {cs['param']}: validator parts {broken} fail at {cs['point']} "
                       f"(model of DiffRecBuilder / extended system / closed form), but no differing n <= {N} was found\n{cs['text']}", no_input=True)
+    if not ctx.replay:
+        cumulant_probe(ctx)
     ctx.coverage["rule"] = (
         "programs: hand-written corpus of sensitivity shapes (parameter in initial value, coefficient, Bernoulli/Categorical parameter, choice "
         "probabilities and values, dependence through a condition, dependent*independent monomials, guard, cyclic system) + random programs (SG) + "
